@@ -238,7 +238,7 @@ def run_shard(agg, exe, variant, shard, nshards, tier, seed, extra, scratch, env
     restarts = 0
     hang_retry = {}
     while True:
-        outp = os.path.join(scratch, 'out.%s.%d.%d' % (os.path.basename(exe), shard, restarts))
+        outp = os.path.join(scratch, 'out.%s.%s%s.%d.%d' % (os.path.basename(exe), variant, '-' + tool if tool else '', shard, restarts))    # the variant is part of the name: two runs of one monitor (asan and vg) share the scratch directory
         errp = outp + '.err'
         cmd = [exe, '--out', outp, '--shard', '%d/%d' % (shard, nshards), '--tier', tier, '--seed', str(seed),
                '--from', str(start)] + extra
